@@ -285,12 +285,40 @@ func (m *Model) Step(t tabular.Table, op Op) {
 				}
 			}
 		}
+		if m.HeaderSet {
+			// the cells of the current header row are cells like any other (reached through Headers())
+			for j := range m.Header {
+				switch m.Header[j].It.K {
+				case "if", "ifp", "psx", "ints":
+					cand = append(cand, at{nil, j})
+				}
+			}
+		}
 		if len(cand) == 0 {
 			m.Noops++
 			return
 		}
 		pick := cand[mod(op.Ref*5+op.Cap, len(cand))]
 		r, j := pick.r, pick.j
+		if r == nil {
+			mc := &m.Header[j]
+			to := op.Items[0]
+			if to.K == "keep" && mc.Live.St != nil {
+				to.S, to.G, to.E = Str(mc.Live.St.S), Str(mc.Live.St.G), Str(mc.Live.St.E)
+			}
+			if !Mutate(mc.Live, mc.It, to) {
+				m.Noops++
+				return
+			}
+			if to.M != 0 && (mc.It.K == "if" || mc.It.K == "ifp") {
+				mc.It.H, mc.It.W = to.H, to.W
+			}
+			hs := t.Headers()
+			(&hs[j]).Update()
+			mc.Text = TextForm(mc.It, mc.Live)
+			m.Mutated = true
+			return
+		}
 		mc := &r.Cells[j]
 		to := op.Items[0]
 		if to.K == "keep" && mc.Live.St != nil {
@@ -461,11 +489,26 @@ func (s Script) Shape() string {
 	return s.Creator + ":" + string(b)
 }
 
-// ScrambleRowsCopy takes the row list the table hands out and reverses,
+// ScrambleRowsCopy overwrites the line lists every cell hands out, then takes the row list the table hands out and reverses,
 // truncates and nils it: it is documented as a copy, so nothing the table
 // does afterwards may depend on it.
 func ScrambleRowsCopy(t tabular.Table) {
 	rr := t.AllRows()
+	// the line lists the cells hand out are the caller's as well
+	scribble := func(cells []tabular.Cell) {
+		for i := range cells {
+			l := cells[i].Lines()
+			for k := range l {
+				l[k] = "SCRIBBLED BY THE CALLER, WIDER THAN ANYTHING ELSE IN THE TABLE"
+			}
+		}
+	}
+	for _, r := range rr {
+		if r != nil {
+			scribble(r.Cells())
+		}
+	}
+	scribble(t.Headers())
 	for i, j := 0, len(rr)-1; i < j; i, j = i+1, j-1 {
 		rr[i], rr[j] = rr[j], rr[i]
 	}
